@@ -135,6 +135,37 @@ def sec_lat_d_dlat_cos2_contract(en: E.Engine):
     en.ensure('sec_lat_d_dlat_cos2(x)[k] == (l[k+1] - 1) a[k+1] x[k+1] - (l[k-1] + 2) b[k-1] x[k-1]', y.get(k) == up + dn)
 
 
+def padding_independence_contract(en: E.Engine, which='cos_lat_d_dlat'):
+  """C09: on a padded layout (FastSphericalHarmonics) the latitude derivative of a field whose padded columns are zero agrees, on every
+  resolved column, with the derivative on the unpadded layout (RealSphericalHarmonics) of the same truncation."""
+  from dinosaur import spherical_harmonic as sh
+  g, L, pad, m, n, lz, maskz = _grid(en)
+  kind, ab = en.invoke(en.load_function(sh.Grid._derivative_recurrence_weights.func), g)
+  lseq0 = E.SymSeq(L, lambda k: z3.ToReal(E.to_z3(k)), z3.RealSort(), 'l')
+  mask0 = E.SymSeq(L, lambda k: z3.If(E.to_z3(k) >= m, z3.RealVal(1), z3.RealVal(0)), z3.RealSort(), 'mask')
+  g0 = E.Obj(class_ref=sh.Grid, modal_mesh=(z3.ToReal(m), lseq0), mask=mask0, longitude_wavenumbers=g.longitude_wavenumbers, total_wavenumbers=L,
+             modal_shape=(g.modal_shape[0], L), modal_padding=(g.modal_padding[0], 0))
+  kind0, ab0 = en.invoke(en.load_function(sh.Grid._derivative_recurrence_weights.func), g0)
+  if 'raise' in (kind, kind0):
+    en.ensure('_derivative_recurrence_weights runs on both layouts', False)
+    return
+  g._derivative_recurrence_weights, g0._derivative_recurrence_weights = ab, ab0
+  xp = E.SymSeq(n, lambda k: z3.If(E.to_z3(k) < L, X(E.to_z3(k)), z3.RealVal(0)), z3.RealSort(), 'x_padded')      # requires: padded columns are zero
+  x0 = E.SymSeq(L, lambda k: X(E.to_z3(k)), z3.RealSort(), 'x')
+  en.cover('requires: same truncation, padded columns zero')
+  k1, yp = en.invoke(en.getattr(g, which), xp)
+  k2, y0 = en.invoke(en.getattr(g0, which), x0)
+  if 'raise' in (k1, k2):
+    en.ensure(f'{which} runs on both layouts', False)
+    return
+  k = en.int('k')
+  en.assume(z3.And(k >= 0, k < L))
+  from contracts import vertical_matrix_contracts as VM
+  cases = [('k = 0 < L-1', [k == 0, k < L - 1]), ('k = 0 = L-1', [k == 0, k == L - 1]), ('0 < k < L-1', [k >= 1, k < L - 1]), ('0 < k = L-1', [k >= 1, k == L - 1])]
+  cases = [(f'{a}, {b}', ca + cb) for a, ca in cases for b, cb in (('no padding', [pad == 0]), ('padded', [pad >= 1]))]
+  VM.ensure_cases(en, f'{which}: padded and unpadded layouts agree on every resolved column k < L', [L >= 1, pad >= 0, m >= 0, k >= 0, k < L], cases, [], yp.get(k) == y0.get(k), timeout_ms=30000)
+
+
 def canary_contract(en: E.Engine):
   from dinosaur import spherical_harmonic as sh
   g, L, pad, m, n, lz, maskz = _grid(en)
@@ -179,7 +210,11 @@ def replay_recurrence(w):
   return bool(msgs), ('; '.join(msgs[:3]) if msgs else 'recurrence weights and both latitude derivatives equal the documented recurrences on the sampled grids')
 
 
-def clauses():
+def clauses(prop='C02'):
+  rc = lambda c, n=2, **kw: (lambda ctx: run_contract((lambda en: c(en, **kw)) if kw else c, min_obligations=n, setup=_setup, timeout_ms=60000))
+  if prop == 'C09':
+    return [Clause(f'smt:{w} agrees between padded (fast) and unpadded (reference) layouts on every resolved column (all truncations, paddings, rows)', 'smt', [G + w, G + '_derivative_recurrence_weights'],
+                   rc(padding_independence_contract, 2, which=w), replay=replay_recurrence, group='pyvc') for w in ('cos_lat_d_dlat', 'sec_lat_d_dlat_cos2')]
   rc = lambda c, n=2: (lambda ctx: run_contract(c, min_obligations=n, setup=_setup, timeout_ms=60000))
   return [
       Clause('smt:_derivative_recurrence_weights == documented a, b (a[0] = 0, only the last stored column of b zeroed) for all truncations, paddings, zonal rows', 'smt',
